@@ -18,7 +18,8 @@ def slot : Kind → Kind
 theorem chGet_slot (s : St) (k : Kind) (d : Nat) : s.chGet k d = s.chGet (slot k) d := by
   cases k <;> rfl
 
-structure InvX (ex : Option Var) (s : St) : Prop where
+/-- the safety part of the invariant -/
+structure Inv0 (ex : Option Var) (s : St) : Prop where
   notrap : s.trap = false
   alive_lt : ∀ o, s.alive o = true → o < s.next
   dtors_eq : ∀ o, s.dtors o = if (o < s.next ∧ s.alive o = false) then 1 else 0
@@ -45,6 +46,9 @@ structure InvX (ex : Option Var) (s : St) : Prop where
     (s.kind p = .pool ∧ s.alive i = true ∧ s.kind i = .buf ∧ s.kids i = [] ∧ s.par i = s.par p
       ∧ ∀ k d, i ∉ s.chGet k d)
   inner_inj : ∀ p q i, s.alive p = true → s.alive q = true → s.inner p = some i → s.inner q = some i → p = q
+
+/-- safety part plus "nothing is alive without an owner" (no leak) -/
+structure InvX (ex : Option Var) (s : St) : Prop extends Inv0 ex s where
   ring_ne : ∀ o, s.alive o = true → s.kind o ≠ .buf → s.useRefs o = true →
     (s.ring o ≠ [] ∨ ∃ v, ex = some v ∧ s.ptr v = some o)
   buf_ne : ∀ b, s.alive b = true → s.kind b = .buf →
@@ -52,14 +56,16 @@ structure InvX (ex : Option Var) (s : St) : Prop where
 
 /-- a set of objects that can be destroyed together: it contains everything its members own, and it
     takes away neither the last slice of a surviving buffer nor the inner buffer of a surviving pool -/
-structure Closed (s : St) (K : List Nat) : Prop where
+structure Closed0 (s : St) (K : List Nat) : Prop where
   nodup : K.Nodup
   alive : ∀ o ∈ K, s.alive o = true
   kidsC : ∀ b ∈ K, ∀ m ∈ s.kids b, m ∈ K
   innerC : ∀ p ∈ K, ∀ i, s.inner p = some i → i ∈ K
   chC : ∀ d ∈ K, ∀ k, ∀ c ∈ s.chGet k d, c ∈ K
-  bufKeep : ∀ b, s.alive b = true → s.kind b = .buf → b ∉ K → s.kids b ≠ [] → ∃ m ∈ s.kids b, m ∉ K
   innerUp : ∀ p i, s.alive p = true → s.inner p = some i → i ∈ K → p ∈ K
+
+structure Closed (s : St) (K : List Nat) : Prop extends Closed0 s K where
+  bufKeep : ∀ b, s.alive b = true → s.kind b = .buf → b ∉ K → s.kids b ≠ [] → ∃ m ∈ s.kids b, m ∉ K
 
 theorem Killed.ptr_some {s s' : St} {K : List Nat} (h : Killed s K s') {v : Var} {o : Nat}
     (hp : s'.ptr v = some o) : s.ptr v = some o ∧ ∀ x ∈ K, v ∉ s.ring x := by
@@ -76,8 +82,8 @@ theorem Killed.alive_iff {s s' : St} {K : List Nat} (h : Killed s K s') (o : Nat
     s'.alive o = true ↔ s.alive o = true ∧ o ∉ K := by
   rw [h.alive]; simp
 
-theorem InvX.killed {ex : Option Var} {s s' : St} {K : List Nat} (hi : InvX ex s) (hk : Killed s K s')
-    (hc : Closed s K) (hp : Purged s' K) (he : Emptied s' K) : InvX ex s' := by
+theorem Inv0.killed {ex : Option Var} {s s' : St} {K : List Nat} (hi : Inv0 ex s) (hk : Killed s K s')
+    (hc : Closed0 s K) (hp : Purged s' K) (he : Emptied s' K) : Inv0 ex s' := by
   have al := hk.alive_iff
   constructor
   · rw [hk.trap]; exact hi.notrap
@@ -134,7 +140,7 @@ theorem InvX.killed {ex : Option Var} {s s' : St} {K : List Nat} (hi : InvX ex s
     rw [hk.kind] at hkm
     obtain ⟨hm1, hm2⟩ := (al m).mp hm
     obtain ⟨b, hb1, hb2⟩ := hi.mem_par m hm1 hkm
-    refine ⟨b, by rw [hk.par m hm2]; exact hb1, ?_⟩
+    refine ⟨b, by rw [hk.par m hm2 hm1]; exact hb1, ?_⟩
     apply hk.kidsU b m hb2 hm1 hm2
     intro hbK
     exact hm2 (hc.kidsC b hbK m hb2)
@@ -147,7 +153,7 @@ theorem InvX.killed {ex : Option Var} {s s' : St} {K : List Nat} (hi : InvX ex s
       have := (he b hbK).1
       rw [this] at hm
       simp at hm
-    refine ⟨(al m).mpr ⟨a1, hmK⟩, by rw [hk.kind]; exact a2, by rw [hk.par m hmK]; exact a3,
+    refine ⟨(al m).mpr ⟨a1, hmK⟩, by rw [hk.kind]; exact a2, by rw [hk.par m hmK a1]; exact a3,
       (al b).mpr ⟨a4, hbK⟩, by rw [hk.kind]; exact a5⟩
   · intro b
     exact hk.kidsN b (hi.kids_nodup b)
@@ -173,7 +179,7 @@ theorem InvX.killed {ex : Option Var} {s s' : St} {K : List Nat} (hi : InvX ex s
         · exact hc2 (hc.innerC p (hc.chC d' hdK _ p e4) c hp2)
         · rw [q1] at e5
           cases e5
-    refine ⟨d, by rw [hk.par c hc2]; exact hd1, (al d).mpr ⟨hd2, hdK⟩, by rw [hk.kind]; exact hd3, ?_⟩
+    refine ⟨d, by rw [hk.par c hc2 hc1]; exact hd1, (al d).mpr ⟨hd2, hdK⟩, by rw [hk.kind]; exact hd3, ?_⟩
     rw [hk.kind]
     rcases hd4 with hd4 | ⟨hkb, p, hp1, hp2⟩
     · exact Or.inl (hk.chU _ d c hd4 hc1 hc2 hdK)
@@ -190,7 +196,7 @@ theorem InvX.killed {ex : Option Var} {s s' : St} {K : List Nat} (hi : InvX ex s
       rw [this] at hcm
       simp at hcm
     rw [hk.kind]
-    exact ⟨(al c).mpr ⟨a1, hcK⟩, by rw [hk.par c hcK]; exact a2, a3, a4, a5, (al d).mpr ⟨a6, hdK⟩, a7⟩
+    exact ⟨(al c).mpr ⟨a1, hcK⟩, by rw [hk.par c hcK a1]; exact a2, a3, a4, a5, (al d).mpr ⟨a6, hdK⟩, a7⟩
   · intro k d
     exact hk.chN k d (hi.ch_nodup k d)
   · intro p i hpa hpi
@@ -199,7 +205,7 @@ theorem InvX.killed {ex : Option Var} {s s' : St} {K : List Nat} (hi : InvX ex s
     obtain ⟨q1, q2, q3, q4, q5, q6⟩ := hi.inner_ok p i hp1 hpi
     have hiK : i ∉ K := fun x => hp2 (hc.innerUp p i hp1 hpi x)
     rw [hk.kind]
-    refine ⟨q1, (al i).mpr ⟨q2, hiK⟩, q3, ?_, by rw [hk.par i hiK, hk.par p hp2]; exact q5, ?_⟩
+    refine ⟨q1, (al i).mpr ⟨q2, hiK⟩, q3, ?_, by rw [hk.par i hiK q2, hk.par p hp2 hp1]; exact q5, ?_⟩
     · apply List.eq_nil_iff_forall_not_mem.mpr
       intro x hx
       have := hk.kidsS i x hx
@@ -210,6 +216,11 @@ theorem InvX.killed {ex : Option Var} {s s' : St} {K : List Nat} (hi : InvX ex s
   · intro p q i hpa hqa hpi hqi
     rw [hk.inner] at hpi hqi
     exact hi.inner_inj p q i ((al p).mp hpa).1 ((al q).mp hqa).1 hpi hqi
+
+theorem InvX.killed {ex : Option Var} {s s' : St} {K : List Nat} (hi : InvX ex s) (hk : Killed s K s')
+    (hc : Closed s K) (hp : Purged s' K) (he : Emptied s' K) : InvX ex s' := by
+  have al := hk.alive_iff
+  refine ⟨hi.toInv0.killed hk hc.toClosed0 hp he, ?_, ?_⟩
   · intro o hoa hko hu
     rw [hk.kind] at hko
     rw [hk.useRefs] at hu
